@@ -274,6 +274,45 @@ int visit(unsigned kind, unsigned n, const int* v, struct visits* o)
         o->n = k;
         break;
     }
+    case 22: // reverse(const char[3]): a char array is an array like any other, whatever its last element is (also 0)
+    {
+        const char c[3] = { static_cast<char>(v[0]), static_cast<char>(v[1]), static_cast<char>(v[2]) };
+        rev_values(reverse(c), o);
+        break;
+    }
+    case 23: // enumerate(const char[3])
+    {
+        const char c[3] = { static_cast<char>(v[0]), static_cast<char>(v[1]), static_cast<char>(v[2]) };
+        enum_values(enumerate(c), o);
+        break;
+    }
+    case 24: // enumerate(temporary std::array): the owning adaptor is COPIED, the original adaptor dies, the copy is iterated
+    {
+        using A = decltype(enumerate(std::array<int, 3>{ { v[0], v[1], v[2] } }));
+        A* first = new A(enumerate(std::array<int, 3>{ { v[0], v[1], v[2] } }));
+        A second(*first);
+        delete first;
+        enum_values(second, o);
+        break;
+    }
+    case 25: // enumerate(temporary std::array): the owning adaptor is MOVED, the original adaptor dies, the new one is iterated
+    {
+        using A = decltype(enumerate(std::array<int, 3>{ { v[0], v[1], v[2] } }));
+        A* first = new A(enumerate(std::array<int, 3>{ { v[0], v[1], v[2] } }));
+        A second(std::move(*first));
+        delete first;
+        enum_values(second, o);
+        break;
+    }
+    case 26: // reverse(temporary std::array): the owning adaptor is copied, the original dies
+    {
+        using A = decltype(reverse(std::array<int, 3>{ { v[0], v[1], v[2] } }));
+        A* first = new A(reverse(std::array<int, 3>{ { v[0], v[1], v[2] } }));
+        A second(*first);
+        delete first;
+        rev_values(second, o);
+        break;
+    }
     case 19: // reverse(temporary fixed_vector)
     {
         nitro::lang::fixed_vector<int> c(4);
